@@ -113,7 +113,7 @@ CLAIMS = {
         'sound for the regular language of the nested pattern, completeness REFUTED by the witness (?:b.?b)?b on bbb, complete for deterministic repetitions, exact and equal to the flat model on flat '
         'patterns; tied by correspondence to the real matcher (accept/reject + length of every repetition) and to re with atomic groups (?>...). A history stage reuses one pattern object over '
         'sequences of targets (match / search / pure AST) against fresh pattern objects. A field sweep builds, for every field of every node of 40 programs, the pattern of the node\'s own value '
-        '(plain and inside M / MOR / MAND / MNOT(MNOT)), one-element variants that must not match, and back-references to the captured field, on the formatted tree and the pure AST alike. search() in every walk mode event by event with the tags of each match; back-reference families with two quantifiers before the reference; type patterns per field on the formatted tree and the pure AST. Also: repetitions that may be empty under a quantifier with a minimum; back-references between nodes of different classes with the same text; expression contexts and primitive types as search patterns.',
+        '(plain and inside M / MOR / MAND / MNOT(MNOT)), one-element variants that must not match, and back-references to the captured field, on the formatted tree and the pure AST alike. search() in every walk mode event by event with the tags of each match; back-reference families with two quantifiers before the reference; type patterns per field on the formatted tree and the pure AST. Also: repetitions that may be empty under a quantifier with a minimum; back-references between nodes of different classes with the same text; expression contexts and primitive types as search patterns. models/TreeMatch.v: an AST as pattern matches exactly its own tree (a copy that differs in one leaf - None vs 0 / False / '' / b'' / 0.0 - matches in neither direction), a wildcard field whatever stands in its place; correspondence on (node, own AST / one leaf changed) pairs and the primitive-leaf matrix.',
    note='Trusted: Coq kernel/vm_compute; hand models Match.v and MatchNested.v tied by correspondence; Python re (with atomic groups for nested repetitions) as reference for quantifier sequences (OH3). No axioms.',
    design='DESIGN.md section 4 C17'),
  'C06': dict(
